@@ -377,5 +377,7 @@ class Check:
                                 traces_validated_against_impl=self.traces_impl, features=self.features,
                                 known_findings_seen=known_seen, no_longer_checks=[b[0] for b in self.broken], **self.extra),
                   assumptions=self.notes, wall_s=round(time.time() - self.t0, 2), violations=nviol)
-        os.makedirs(os.path.join(VERIF, "evidence"), exist_ok=True)
-        json.dump(ev, open(os.path.join(VERIF, "evidence", f"{self.pid}.json"), "w"), indent=1, default=str)
+        # evidence/ describes runs against /repo itself; runs against a scratch copy (VERIF_REPO) are kept apart
+        edir = os.path.join(VERIF, "evidence") if os.path.realpath(REPO) == "/repo" else os.path.join(WORK, "evidence_scratch")
+        os.makedirs(edir, exist_ok=True)
+        json.dump(ev, open(os.path.join(edir, f"{self.pid}.json"), "w"), indent=1, default=str)
